@@ -14,7 +14,10 @@ FlatArgs(args) == IF Len(args) = 0 THEN <<>>
 \* arguments (row-major); functions in ErrorOpaque inspect / count / evaluate lazily and are described elsewhere
 StrictResult(f, args) ==
     LET fe == FirstErr(FlatArgs(args)) IN
-    IF f \in ErrorOpaque THEN Open
+    \* AND / OR evaluate their arguments on demand, but ONE argument (a whole range included) is evaluated as a whole:
+    \* an error among its elements is the result
+    IF f \in {"AND", "OR"} /\ Len(args) = 1 THEN (IF fe.t = "err" THEN fe ELSE Open)
+    ELSE IF f \in ErrorOpaque THEN Open
     ELSE IF fe.t = "err" THEN fe
     ELSE Open
 
